@@ -16,7 +16,7 @@ RULE = ("the 14 existing Cvt*/Normalize* commands x arrays with >=2 distinct val
         "thresholds asc/desc/inside/outside the data range, defaults with both directions, category tables hitting/missing the data, "
         "curves with 1-6 control points in random order, z-score vectors, IgnoreZeros both ways; distinct by (command, dtype, rank, "
         "mask class, parameter-shape class)")
-REQUIRED_COUNTERS = ["yes_no_spellings_from_a_file", "large_rasters_converted", "tuple_parameter_cases", "ref_postconditions", "variant_checks", "inverse_checks", "monotone_checks", "numpy_scalar_parameter_cases", "written_results_read_back"]
+REQUIRED_COUNTERS = ["saved_and_loaded_models", "yes_no_spellings_from_a_file", "large_rasters_converted", "tuple_parameter_cases", "ref_postconditions", "variant_checks", "inverse_checks", "monotone_checks", "numpy_scalar_parameter_cases", "written_results_read_back"]
 ASSUMPTIONS = ["NormalizeZScore default thresholds, StartVal >= EndVal, equal thresholds, duplicate raw values, constant arrays and "
                "non-increasing mean-to-mid control points are don't-care (documentation silent or inconsistent)",
                "population standard deviation (ddof=0)", "float32 inputs compared with 2e-5 relative tolerance"]
@@ -76,7 +76,6 @@ def cases(ctx):
                 codes = [base, base * (1 + 1e-7), base * (1 + 2e-6), base * (1 - 3e-9)]
                 if s["dtype"] == "float32":
                     codes = [base, base * (1 + 1e-6), base * (1 + 4e-6), base * (1 - 2e-6)]
-                    import numpy
                     codes = [float(numpy.float32(x)) for x in codes]
             s["data"] = [rng.choice(codes) for _ in s["data"]]
             k = rng.randint(1, 3)
@@ -97,6 +96,20 @@ def cases(ctx):
                     s["dtype"] = "int64"
                 c.pop("narrow", None)
         yield c
+    for i in range(ctx.n(24, 1200)):
+        # a model built through the programming interface, written out and loaded again: numbers that need all 17 digits, with
+        # data cells on either side of them
+        th = rng.choice([0.1 + 0.2, 1.0 / 3, 2.0 / 3, 0.1 * 3, 3e-7 * 3, 123456.78900000002, 1.1 * 1.1, 4.35 * 100, -(0.1 + 0.7)])
+        twin = float("%.15g" % th)
+        data = [th, twin, float(numpy.nextafter(th, 1e300)), float(numpy.nextafter(th, -1e300)), twin - 1.0, twin + 1.0, 0.0]
+        rng.shuffle(data)
+        cmd = ["CvtToBinary", "CvtToFuzzyCat", "NormalizeCat", "CvtToBinary"][i % 4]
+        if cmd == "CvtToBinary":
+            params = {"Threshold": th, "Direction": rng.choice(["LowToHigh", "HighToLow"])}
+        else:
+            params = {"RawValues": [th, twin - 1.0], ("FuzzyValues" if cmd == "CvtToFuzzyCat" else "NormalValues"): [0.75, -0.5],
+                      ("DefaultFuzzyValue" if cmd == "CvtToFuzzyCat" else "DefaultNormalValue"): -1 if cmd == "CvtToFuzzyCat" else 0.125}
+        yield {"kind": "saved", "cmd": cmd, "params": params, "data": data}
     from mpv import big
     for i in range(ctx.n(3, 40)):
         j = i * ctx.nshards + ctx.shard
@@ -179,9 +192,39 @@ def run_big(ctx, case):
         ctx.fail("%s:value:large-raster" % cmd, {"cell": int(idx[k]), "got": float(g[k]), "want": float(w[k]), "input_cell": float(numpy.ma.getdata(flat_in)[idx[k]]), "shape": list(shape), "params": params})
 
 
+def run_saved(ctx, case):
+    """Built through the programming interface, written with to_string(), loaded from that text and run: the mapping is the
+    one of the parameters given."""
+    import os
+    from mpilot.program import Program
+    cmd, params, data = case["cmd"], case["params"], case["data"]
+    ctx.feature(("saved", cmd, repr(sorted(params.items()))[:60]))
+    d = ctx.scratch()
+    with open(os.path.join(d, "in.csv"), "w") as fh:
+        fh.write("v\n" + "\n".join(repr(x) for x in data) + "\n")
+    want, scale = ref.MODELS[cmd]([[Fraction(x) for x in data]], params)
+    try:
+        prog = arr.new_program(working_dir=d)
+        prog.add_command(prog.find_command_class("EEMSRead"), "R", {"InFileName": "in.csv", "InFieldName": "v", "DataType": "Float"})
+        prog.add_command(prog.find_command_class(cmd), "Res", dict(params, InFieldName="R"))
+        text = prog.to_string()
+        again = Program.from_source(text, working_dir=d)
+        again.run()
+        res = again.commands["Res"].result
+    except Exception as e:
+        ctx.fail("%s:saved-and-loaded-raises-%s" % (cmd, type(e).__name__), {"error": repr(e)[:200], "params": params})
+        return
+    ctx.count("saved_and_loaded_models")
+    bad = ref.compare(res, want, scale=scale, rel=1e-12)
+    if bad:
+        ctx.fail("%s:%s:saved-and-loaded" % (cmd, bad[0]), {"cell": bad[1], "input_cell": data[bad[1]] if bad[1] is not None else None, "got": bad[2], "want": bad[3], "params": params, "text": text})
+
+
 def run_case(ctx, case):
     if case.get("kind") == "big":
         return run_big(ctx, case)
+    if case.get("kind") == "saved":
+        return run_saved(ctx, case)
     cmd, params = case["cmd"], case["params"]
     fuzzy_in = cmd in arr.FUZZY_INPUT
     inputs = [arr.build(s) for s in case["inputs"]]
